@@ -133,7 +133,7 @@ prop("C18", "exploration",
           "ranges 2.18.0 / 2.20.1-2 / >=2.20.3 are sampled); non-trivial = at least one row written and compared; distinct = new plan "
           "digest reaching a new observation hash")
 prop("C03", "exploration",
-     quick=[("tableh", "fast", 900), ("tracks", "fast", 900), ("tableh", "san", 60)],
+     quick=[("tableh", "fast", 900), ("tracks", "fast", 900), ("table", "fast", 500), ("tableh", "san", 60)],
      thorough=[("tableh", "fast", 50000), ("tracks", "fast", 50000), ("table", "fast", 20000), ("tableh", "san", 3000)],
      relevant=["t_add_ok", "t_update_ok", "t_setcol_ok", "codec_roundtrip_checked"],
      rule="the five public 2.x blob structs are generated over the statement's domain (every double class incl. -0, inf, NaN, "
